@@ -149,6 +149,13 @@ def execute(case, choose, cancel_at=None):
                 info["cancelled"] = True
             else:
                 viols.append(("lru_cache/task-raised", f"{t.name} ended with {type(t.exc).__name__}: {t.exc}"))
+        if t.cancel_exc is not None and t.exc is not t.cancel_exc:
+            # every suspension of a worker is inside the wrapped function, below the cache: a cancellation thrown
+            # there has to come out of the cached call and end the worker
+            info["cancel_thrown_not_propagated"] = True
+            viols.append(("lru_cache/cancel-not-propagated",
+                          f"{t.name} was cancelled at resumption {t.cancel_at} (inside {t.cancelled_at_owner}) but ended "
+                          f"with {'value ' + repr(t.value) if t.exc is None else repr(t.exc)}"))
     for t, key, value in received:
         ok = isinstance(value, tuple) and len(value) == 3 and value[1] == key and produced.get(value[2]) == (key, "ok")
         if not ok:
